@@ -164,6 +164,8 @@ type ecdheKeyAgreement struct {
 	// and returned in generateClientKeyExchange.
 	ckx             *clientKeyExchangeMsg
 	preMasterSecret []byte
+
+	verifKA // [verif] empty unless built with the tag "verif"
 }
 
 func (ka *ecdheKeyAgreement) generateServerKeyExchange(config *Config, cert *Certificate, clientHello *clientHelloMsg, hello *serverHelloMsg) (*serverKeyExchangeMsg, error) {
@@ -174,6 +176,8 @@ func (ka *ecdheKeyAgreement) generateServerKeyExchange(config *Config, cert *Cer
 			break
 		}
 	}
+
+	curveID = ka.verifCurve(curveID) // [verif] no-op unless built with the tag "verif"
 
 	if curveID == 0 {
 		return nil, errors.New("tls: no supported elliptic curves offered")
